@@ -367,6 +367,8 @@ pub struct Observed {
     pub traces: Vec<Vec<Ev>>,
     pub schedule_taken: Vec<u8>,
     pub overlap_events: u64,
+    /// scheduler points taken inside the panic hook (a thread parked at the instant its panic started)
+    pub hook_parks: u64,
     pub steps: u64,
 }
 
@@ -408,7 +410,9 @@ impl SimThreads {
                 .spawn(move || {
                     while let Ok(job) = jobs.recv() {
                         job.sched.start(job.tid);
+                        CURRENT.with(|c| c.set(Some((std::sync::Arc::as_ptr(&job.sched), job.tid))));
                         let (trace, steps) = run_thread(job.tid, &job.prog, Some(&job.sched));
+                        CURRENT.with(|c| c.set(None));
                         job.sched.finish(job.tid);
                         if back.send((job.tid, trace, steps)).is_err() {
                             break;
@@ -422,6 +426,22 @@ impl SimThreads {
 }
 
 thread_local! {
+    /// scheduler and thread id of the simulated caller thread running on this OS thread
+    static CURRENT: std::cell::Cell<Option<(*const Sched, usize)>> = std::cell::Cell::new(None);
+}
+
+/// Called from the process-wide panic hook: the instant a panic starts (before any frame is torn
+/// down, e.g. while a drop bomb is still inside `Accumulator::drop`) is a scheduler point too, so
+/// "another thread runs while this one is in the middle of panicking" is an interleaving the
+/// simulator produces deterministically instead of leaving it to real races.
+pub fn panic_hook_point() {
+    if let Some((sched, tid)) = CURRENT.with(|c| c.get()) {
+        // the Arc<Sched> is kept alive by the job for the whole run of this thread
+        unsafe { (*sched).hook_point(tid) };
+    }
+}
+
+thread_local! {
     static SIM_THREADS: std::cell::RefCell<SimThreads> = std::cell::RefCell::new(SimThreads::new());
 }
 
@@ -429,7 +449,7 @@ thread_local! {
 pub fn execute(sc: &Scenario) -> Observed {
     if sc.threads.len() == 1 {
         let (trace, steps) = run_thread(0, &sc.threads[0], None);
-        return Observed { traces: vec![trace], schedule_taken: Vec::new(), overlap_events: 0, steps };
+        return Observed { traces: vec![trace], schedule_taken: Vec::new(), overlap_events: 0, hook_parks: 0, steps };
     }
     let n = sc.threads.len();
     let sched = std::sync::Arc::new(Sched::new(n, sc.schedule.clone()));
@@ -448,6 +468,6 @@ pub fn execute(sc: &Scenario) -> Observed {
             steps += s;
         }
     });
-    let (taken, overlap) = sched.report();
-    Observed { traces, schedule_taken: taken, overlap_events: overlap, steps }
+    let (taken, overlap, hook_parks) = sched.report();
+    Observed { traces, schedule_taken: taken, overlap_events: overlap, hook_parks, steps }
 }
